@@ -224,7 +224,7 @@ def bocBody (bs : Bytes) (isGen hasIdx hasCrc : Bool) (sb ob cellsNum rootsNum t
 
 /-- header size check, the three size fields, then `bocBody` -/
 def bocGuarded (bs : Bytes) (isGen hasIdx hasCrc : Bool) (sb ob : Nat) : BocCost :=
-  if bs.length - 5 < 1 + 5 * sb then {} else           -- "can't parse boc header"
+  if bs.length - 5 < 1 + 3 * sb then {} else           -- "can't parse boc header" (`1 + 3 * size_bytes` since fix 36d5bc1)
   if sb == 0 then {} else                              -- range(6, end, 0): ValueError
   bocBody bs isGen hasIdx hasCrc sb ob (natOfBE (sl bs 6 (6 + sb))) (natOfBE (sl bs (6 + sb) (6 + 2 * sb)))
     (natOfBE (sl bs (6 + 3 * sb) (6 + 3 * sb + ob)))
